@@ -237,6 +237,11 @@ def run_tier(args):
     with open(os.path.join(core.HOME, 'evidence', args.prop + '.json'), 'w') as f:
         json.dump(evidence, f, indent=1, sort_keys=False)
         f.write('\n')
+    # a copy per tier, so that the deepest run of each tier stays on record
+    # next to the file the manifest names (which the latest run overwrites)
+    os.makedirs(os.path.join(core.HOME, 'evidence', 'by-tier'), exist_ok=True)
+    shutil.copy(os.path.join(core.HOME, 'evidence', args.prop + '.json'),
+                os.path.join(core.HOME, 'evidence', 'by-tier', '{}-{}.json'.format(args.prop, args.tier)))
 
     if status == 2:
         print('INCONCLUSIVE property={} reason={}'.format(args.prop, ' | '.join(merged['inconclusive'])[:3000]))
